@@ -1293,6 +1293,21 @@ def r_keep_going(rule, root=None):
     if not cases:
         rule.lost("the results of voxel render_tile_recurse")
         return
+    # a child's answer concerns the child's own pixels only: the parent visits every subtile and decides about itself
+    # from its own state - an answer aggregated from the children says "stop" while another column is still open
+    rec = [c for c in A.find(fn0["body"], "MethodCall") if c["method"] == "render_tile_recurse" and str(txt(c["recv"])) == "self"]
+    as_stmt = set()
+    for st_ in A.all_stmts(fn0["body"]):
+        e_ = A.stmt_expr(st_)
+        if e_ is not None and st_.get("k") == "ExprStmt":
+            e_ = A.strip(e_)
+            if e_.get("k") == "MethodCall" and e_["method"] == "render_tile_recurse":
+                as_stmt.add(id(e_))
+    used = [c for c in rec if id(c) not in as_stmt]
+    if rec and not used:
+        rule.ok("the recursion visits every subtile and does not let a child's answer decide for the parent", file=VOX, line=rec[0]["ln"])
+    elif used:
+        rule.bad("voxel|stop|children", "voxel render_tile_recurse uses the answer of its recursive call on a subtile (`%s`): `false` from a child means that child's pixels are filled, not the parent's - the other subtile columns, and the root tiles below them, still have to be rendered" % str(txt(used[0]))[:60], A.where(VOX, used[0]))
     nf = 0
     for v, conds in cases:
         t = A.unparse(v).replace(" ", "")
